@@ -161,6 +161,9 @@ pub struct Cluster {
     pub transport: Transport,
     pub held: Vec<ChangeV1>,
     pub remote_versions: usize,
+    /// every remote changeset produced so far (a restarted node may have forgotten versions whose changes
+    /// all lost their merge: they are offered again, as sync would)
+    pub log: Vec<ChangeV1>,
 }
 
 impl Cluster {
@@ -178,7 +181,7 @@ impl Cluster {
         let (rtt_tx, _rtt_rx) = tokio::sync::mpsc::channel(1024);
         let gconf = node_config(&root.join("h")).gossip;
         let transport = Transport::new(&gconf, rtt_tx).await.map_err(|e| Fail::infra(format!("transport: {e}")))?;
-        Ok(Cluster { b, origins, transport, held: vec![], remote_versions: 0 })
+        Ok(Cluster { b, origins, transport, held: vec![], remote_versions: 0, log: vec![] })
     }
 
     pub async fn deliver(&self, msgs: &[ChangeV1]) -> Result<(), Fail> {
@@ -204,6 +207,7 @@ impl Cluster {
             let Some(v) = ver else { return Ok(false) };
             let msgs = self.origins[oi].collect_broadcast(v, None).await.map_err(|e| Fail::infra(e.0))?;
             self.remote_versions += 1;
+            self.log.extend(msgs.iter().cloned());
             if tx.hold {
                 self.held.extend(msgs);
             } else {
@@ -318,7 +322,12 @@ pub async fn settle(cl: &Cluster, stream: &mut NdjsonStream, model: &mut SubMode
         }
         if t0.elapsed() > ceiling {
             if !applied {
-                return Err(Fail::infra(format!("{what}: remote changes were not applied within {ceiling:?}")));
+                let state = klukai_types::sync::generate_sync(&cl.b.bookie, cl.b.agent.actor_id()).await;
+                let mut origin_heads = vec![];
+                for o in &cl.origins {
+                    origin_heads.push((o.actor(), o.agent.booked().read::<&str, _>("c11", None).await.last()));
+                }
+                return Err(Fail::infra(format!("{what}: remote changes were not applied within {ceiling:?}: origins {origin_heads:?}, node state {state:?}")));
             }
             for (got, clause, name) in [(&mat, "materialised-rows-equal-query", "subscription's query table"), (&replay, "event-replay-equals-query", "replay of the event stream")] {
                 if *got != want {
